@@ -537,15 +537,24 @@ func (p *c19) Run(tier string, seed int64, idx int) core.CaseResult {
 	// ---- scalar substitution in JSON documents
 	leafTypes := map[string]*snode{}
 	var collect func(kids []*snode)
+	ambiguous := map[string]bool{}
 	collect = func(kids []*snode) {
 		for _, k := range dataKids(kids) {
 			if k.kw == "leaf" || k.kw == "leaf-list" {
+				if _, twice := leafTypes[k.name]; twice {
+					// the same leaf name at several levels: a member name in the document does not
+					// tell which leaf (and type) it is
+					ambiguous[k.name] = true
+				}
 				leafTypes[k.name] = k
 			}
 			collect(k.kids)
 		}
 	}
 	collect(c.sn.kids)
+	for n := range ambiguous {
+		delete(leafTypes, n)
+	}
 	for i, e := range encodings {
 		enc := encOf(i)
 		if enc == encoding.XML {
